@@ -234,7 +234,19 @@ func amplifiers(c *vp.Child) {
 					c.Violation("used-reaches-limit", a.Name, fmt.Sprintf("%s: accounted %d", what, o.UsedMem), text)
 				}
 				if dt > 30 {
-					c.Violation("unmetered-work", a.Name+" N="+n, fmt.Sprintf("%s: %.1f s of CPU time", what, dt), text)
+					confirmed, inconclusive, best, cal := quota.ConfirmSlow(dt, 30, func() float64 {
+						t0 := quota.CPUTime()
+						quota.Run(text, nil, 50000000, M)
+						return quota.CPUTime() - t0
+					})
+					switch {
+					case confirmed:
+						c.Violation("unmetered-work", a.Name+" N="+n, fmt.Sprintf("%s: %.1f s of CPU time in each of 4 runs (first %.1f s; calibration %.2f s)", what, best, dt, cal), text)
+					case inconclusive:
+						c.Inconclusive(fmt.Sprintf("%s: %.1f s of CPU time, but the machine's calibration run took %.2f s", what, best, cal))
+					default:
+						c.Feature("amplifier-slow-once-not-confirmed", 1)
+					}
 				}
 				c.NonTrivial(vp.Hash(a.Name, n, fmt.Sprint(M)))
 				c.Feature("amplifier-outcome-"+o.Kind, 1)
